@@ -318,8 +318,8 @@ Definition step (p : pool) (o : op) : pool * res * list aevent :=
   let on := on p in
   match o with
   | CtorDefault a => (set p a (Some fresh), ROk, dtor_events a)
-  | CtorN a n => if 0 <=? n then finish_ctor a (dtor_events a) (grow_set fresh true n (rep n 0)) else skip
-  | CtorNV a n x => if 0 <=? n then finish_ctor a (dtor_events a) (grow_set fresh true n (rep n x)) else skip
+  | CtorN a n => if (0 <=? n) && (n <=? cM c) then finish_ctor a (dtor_events a) (grow_set fresh true n (rep n 0)) else skip
+  | CtorNV a n x => if (0 <=? n) && (n <=? cM c) then finish_ctor a (dtor_events a) (grow_set fresh true n (rep n x)) else skip
   | CtorRange a k vs => finish_ctor a (dtor_events a) (append_range fresh k vs)
   | CtorCopy a b =>
       if Nat.eqb a b then skip else
@@ -360,7 +360,7 @@ Definition step (p : pool) (o : op) : pool * res * list aevent :=
       on a (fun v => if (0 <=? q) && (q <=? len (els v)) && arg_ok (els v) g
                      then finish a (one_incr v (insert_list q [argval (els v) g] (els v))) (RIdx q) else skip)
   | InsertN a q n g =>
-      on a (fun v => if (0 <=? q) && (q <=? len (els v)) && (0 <=? n) && arg_ok (els v) g
+      on a (fun v => if (0 <=? q) && (q <=? len (els v)) && (0 <=? n) && (n <=? cM c) && arg_ok (els v) g
                      then finish a (if 0 <? n
                                     then grow_set v true (b_size c (w v) + n) (insert_list q (rep n (argval (els v) g)) (els v))
                                     else inl (v, [])) (RIdx q)
@@ -396,14 +396,14 @@ Definition step (p : pool) (o : op) : pool * res * list aevent :=
                      then (set p a (Some {| w := b_decrSize c (w v); els := removelast (els v) |}), RVal (last (els v) 0), []) else skip)
   | Clear a => on a (fun v => (set p a (Some {| w := b_setSize c (w v) 0; els := [] |}), ROk, []))
   | Resize a n =>
-      on a (fun v => if 0 <=? n
+      on a (fun v => if (0 <=? n) && (n <=? cM c)
                      then finish a (grow_set v (b_size c (w v) <? n) n (take n (els v) ++ rep (n - len (els v)) 0)) ROk else skip)
   | ResizeV a n g =>
-      on a (fun v => if (0 <=? n) && arg_ok (els v) g
+      on a (fun v => if (0 <=? n) && (n <=? cM c) && arg_ok (els v) g
                      then finish a (grow_set v (b_size c (w v) <? n) n (take n (els v) ++ rep (n - len (els v)) (argval (els v) g))) ROk
                      else skip)
   | AssignN a n g =>
-      on a (fun v => if (0 <=? n) && arg_ok (els v) g
+      on a (fun v => if (0 <=? n) && (n <=? cM c) && arg_ok (els v) g
                      then finish a (grow_set v (b_size c (w v) <? n) n (rep n (argval (els v) g))) ROk else skip)
   | AssignRange a k vs => on a (fun v => finish a (assign_range v k vs) ROk)
   | Reserve a n =>
@@ -421,9 +421,9 @@ Definition step (p : pool) (o : op) : pool * res * list aevent :=
                      else skip)
   | Shrink a => on a (fun v => let '(w1, ev) := b_shrink c (w v) in (set p a (Some {| w := w1; els := els v |}), ROk, ev))
   | AppendN a n =>
-      on a (fun v => if 0 <=? n then finish a (grow_set v true (b_size c (w v) + n) (els v ++ rep n 0)) ROk else skip)
+      on a (fun v => if (0 <=? n) && (n <=? cM c) then finish a (grow_set v true (b_size c (w v) + n) (els v ++ rep n 0)) ROk else skip)
   | AppendNV a n g =>
-      on a (fun v => if (0 <=? n) && arg_ok (els v) g
+      on a (fun v => if (0 <=? n) && (n <=? cM c) && arg_ok (els v) g
                      then finish a (grow_set v true (b_size c (w v) + n) (els v ++ rep n (argval (els v) g))) ROk else skip)
   | AppendRange a k vs => on a (fun v => finish a (append_range v k vs) ROk)
   | CopyAssign a b =>
